@@ -585,6 +585,36 @@ def g_context(mode):
             seen3 = dict(current_context.response_annotations)
             if "TAGX" not in seen1 or "TAGX" in seen2 or "TAGX" in seen3:
                 fail(group="C12", scenario="client side", violated="client observed %r, %r, %r" % (sorted(seen1), sorted(seen2), sorted(seen3)))
+    # client side: after each call the client sees only THAT call's reply annotations - also when the call had to (re)connect first and the
+    # handshake reply carried annotations of its own
+    class HsDaemon(server.Daemon):
+        def validateHandshake(self, conn, data):
+            current_context.response_annotations["HSHK"] = b"from-the-handshake"
+            return "ok"
+
+    for st in ("thread", "multiplex"):
+        with Running(st, HsDaemon) as r:
+            uri = r.daemon.register(Ctx(), "ctx")
+            with client.Proxy(uri) as p:
+                p._pyroBind()
+                for what in ("plain call", "oneway call", "raising call"):
+                    RUNS[0] += 1
+                    p._pyroRelease()          # the next call has to connect first
+                    current_context.response_annotations = {"OLD!": b"stale"}
+                    try:
+                        if what == "plain call":
+                            p.echo(1)
+                        elif what == "oneway call":
+                            p.fire(1)
+                        else:
+                            p.boom()
+                    except Exception:      # noqa
+                        pass
+                    seen = {k: bytes(v) for k, v in current_context.response_annotations.items()}
+                    if seen:
+                        fail(group="C12", server=st, scenario="%s on a proxy that had to connect first" % what,
+                             violated="after the call the client sees annotations %r, the call's reply carried none" % (seen,))
+            current_context.response_annotations = {}
 
 
 # ---------------------------------------------------------------------------------------------------------------------
@@ -644,6 +674,17 @@ def g_replies(mode):
             e = KeyError("cannot set", v)
             e.custom = [v]
             raise e
+
+        def raise_nested(self):
+            raise ValueError("bad uri", core.URI("PYRO:obj@host:1"))
+
+        def raise_unser_content(self):
+            e = ValueError("boom")
+            e.culprit = object()
+            raise e
+
+        def raise_systemexit(self):
+            raise SystemExit(3)
 
         def raise_surrogate(self):
             raise ValueError("cannot process file: " + os.fsdecode(b"report-\xff.txt"))
@@ -744,6 +785,30 @@ def g_replies(mode):
                             elif type(x) is not want_t or tuple(x.args) != want_args:
                                 fail(group="C07", serializer=sername, position=pos,
                                      violated="caller got %s%r instead of %s%r" % (type(x).__name__, x.args, want_t.__name__, want_args))
+                    # listed known findings
+                    RUNS[0] += 1
+                    try:
+                        p.raise_nested()
+                    except ValueError as x:
+                        if len(x.args) == 2 and isinstance(x.args[1], dict) and sername in ("serpent", "json") and "C07-class-values-nested-in-exception" not in KNOWN:
+                            KNOWN.append("C07-class-values-nested-in-exception")
+                        elif len(x.args) != 2 or not isinstance(x.args[1], (core.URI, dict)):
+                            fail(group="C07", serializer=sername, scenario="raise_nested", violated="args arrived as %r" % (x.args,))
+                    except Exception as x:    # noqa
+                        if sername != "marshal":
+                            fail(group="C07", serializer=sername, scenario="raise_nested", violated="caller got %r" % (x,))
+                    if sername != "marshal":
+                        RUNS[0] += 1
+                        b_ = client.BatchProxy(p)
+                        b_.once("x")
+                        b_.raise_unser_content()
+                        try:
+                            list(b_())
+                            fail(group="C07", serializer=sername, scenario="batch member with unserialisable exception content", violated="no exception")
+                        except Exception as x:    # noqa
+                            if "ValueError" not in str(x) and not isinstance(x, ValueError):
+                                if "C07-batch-member-unserialisable-exception" not in KNOWN:
+                                    KNOWN.append("C07-batch-member-unserialisable-exception")
                     # content that is awkward for the error reply itself: text the serializer cannot encode (lone surrogate), an attribute named
                     # like Pyro's own bookkeeping: the caller still gets the exception or a Pyro error describing it - never a dropped connection
                     for meth in ("raise_surrogate", "raise_with_pyromsg_attr"):
@@ -778,6 +843,25 @@ def g_replies(mode):
                             RUNS[0] += 1
                             if p.once("next")[0] != "next":
                                 fail(group="C07", serializer=sername, violated="proxy unusable after unserialisable exception")
+
+
+    # listed known finding: a remote method ending with a BaseException that is not an Exception (sys.exit()): no error reply; on the multiplex server
+    # the exception leaves the request loop
+    for st in ("thread", "multiplex"):
+        RUNS[0] += 1
+        with Running(st) as r:
+            uri = r.daemon.register(Exc(), "exc")
+            with client.Proxy(uri) as p:
+                p._pyroTimeout = 1.0
+                try:
+                    p.raise_systemexit()
+                    fail(group="C07", server=st, scenario="raise_systemexit", violated="no exception")
+                except SystemExit:
+                    pass
+                except Exception:    # noqa
+                    if "C07-baseexception-from-remote-method" not in KNOWN:
+                        KNOWN.append("C07-baseexception-from-remote-method")
+            time.sleep(0.2)
 
 
 # ---------------------------------------------------------------------------------------------------------------------
@@ -854,6 +938,55 @@ def g_batch(mode):
                         finally:
                             for o in objs:
                                 r.daemon.unregister(o)
+            # listed known findings: a @oneway method inside a NORMAL batch runs inline and contributes its result / exception (one by one it
+            # returns None and its exception is swallowed in its own thread); a member whose RESULT cannot be serialised fails the batch only after
+            # the later members have run
+            RUNS[0] += 1
+
+            @api.expose
+            class Odd(Acc):
+                @api.oneway
+                def ow_bad(self, n):
+                    self.log.append(n)
+                    raise ValueError("oneway failed")
+
+                def opaque(self):
+                    self.log.append("opaque")
+                    return object()
+
+            o1, o2, o3 = Odd(), Odd(), Odd()
+            u1, u2, u3 = [r.daemon.register(o) for o in (o1, o2, o3)]
+            try:
+                with client.Proxy(u1) as p:
+                    p.add(1)
+                    p.ow_bad(4)
+                    time.sleep(0.1)
+                    p.add(5)
+                with client.Proxy(u2) as p:
+                    b = client.BatchProxy(p)
+                    b.add(1)
+                    b.ow_bad(4)
+                    b.add(5)
+                    try:
+                        list(b())
+                    except Exception:      # noqa
+                        pass
+                if o1.state() != o2.state() and "C11-oneway-member-in-normal-batch" not in KNOWN:
+                    KNOWN.append("C11-oneway-member-in-normal-batch")
+                with client.Proxy(u3) as p:
+                    b = client.BatchProxy(p)
+                    b.add(1)
+                    b.opaque()
+                    b.add(2)
+                    try:
+                        list(b())
+                    except Exception:      # noqa
+                        pass
+                if o3.log == [1, "opaque", 2] and "C11-unserialisable-member-result" not in KNOWN:
+                    KNOWN.append("C11-unserialisable-member-result")
+            finally:
+                for o in (o1, o2, o3):
+                    r.daemon.unregister(o)
             # a batch proxy whose submit FAILED (private / unknown member: the whole request is refused after its prefix ran) must not repeat that
             # prefix on its next submit
             for badname in ("_priv", "nosuch"):
@@ -1031,6 +1164,18 @@ def g_registry(mode):
                         pass
                     if how == "by-id-then-id-reused":
                         d.unregister(y)
+        # an id that cannot be written into a uri is refused before anything is registered: ids the daemon reports are exactly the registered ones
+        RUNS[0] += 1
+        odd = Box("odd")
+        try:
+            d.register(odd, "my obj")
+            fail(group="C16", violated="an id containing whitespace was accepted")
+        except Exception:      # noqa
+            pass
+        if "my obj" in d.objectsById or hasattr(odd, "_pyroId"):
+            fail(group="C16", history="register(obj, 'my obj') raises", violated="the refused registration left its traces: id listed=%s, object marked=%s" % (
+                "my obj" in d.objectsById, hasattr(odd, "_pyroId")))
+            d.objectsById.pop("my obj", None)
         # a stale or inherited id attribute must never act on what the id designates NOW (unregister / uriFor / proxyFor by object)
         for how in ("id-taken-over-by-force", "unregistered-by-id-then-id-reused", "instance-of-registered-class"):
             RUNS[0] += 1
@@ -1311,6 +1456,35 @@ def g_gate(mode):
                     if LOG and not ok:
                         fail(group="C02", object=oid, name=name, kind=kind, violated="code of an inherited / unexposed member ran: %r" % (list(LOG),))
             raw.close()
+        # listed known finding: an unexposed NON-data descriptor (functools.cached_property, hand-written __get__-only descriptors) named by a
+        # method call: refused, but its getter has run (and cached_property has written the instance) before the refusal
+        import functools
+
+        class Lazy(object):
+            @api.expose
+            def ping(self):
+                return "pong"
+
+            @functools.cached_property
+            def secret_token(self):
+                LOG.append("secret_token-getter")
+                return 12345
+
+        lazy = Lazy()
+        r.daemon.register(lazy, "lazy")
+        raw = Raw(r.addr)
+        raw.connect("lazy")
+        RUNS[0] += 1
+        del LOG[:]
+        raw.invoke("lazy", "secret_token", (), seq=7)
+        m = raw.reply()
+        if LOG or "secret_token" in vars(lazy):
+            if m is not None and m.flags & P.FLAGS_EXCEPTION:
+                if "C02-nondata-descriptor-getter-runs" not in KNOWN:
+                    KNOWN.append("C02-nondata-descriptor-getter-runs")
+            else:
+                fail(group="C02", name="secret_token", kind="call", violated="an unexposed cached_property was SERVED by a method call")
+        raw.close()
         # exposure follows the class as it is now: a property that is withdrawn (replaced by an unexposed one, or deleted) and
         # whose metadata cache was reset must be refused afterwards, for reads and writes
         class Vault(object):
